@@ -1,10 +1,12 @@
 // C08: two more aborts found by the exploratory mutation run.  Run as an integration test of the `rssl` crate (copy into <repo>/tests/).
 //   52bac39  `Texture2D<const float4> t;` on Metal          panic "extract_scalar expects unmodified type" (msl build_texture)
+//   43792ac  `volatile ConstantBuffer<S> l = g;` on Metal     panic "Failed to insert modifiers into declarator"
 //   81b8c36  `void g(int3x3 m) {} void f() { g(1); }`        panic "invalid vector cast Scalar Matrix(3, 3)" (typer/src/casting.rs get_rank)
 #[test]
 fn demo() {
     let mut panics = 0;
-    for src in ["Texture2D<const float4> t; void f() { t.Load(int3(0,0,0)); }", "void g(int3x3 m) {} void f() { g(1); }"] {
+    for src in ["Texture2D<const float4> t; void f() { t.Load(int3(0,0,0)); }", "void g(int3x3 m) {} void f() { g(1); }",
+        "struct S { uint m; }; const ConstantBuffer<S> g : register(b0); void f() { volatile ConstantBuffer<S> l = g; S s = (S)l; }"] {
         for t in [rssl::Target::HlslForDirectX, rssl::Target::Msl] {
             let s = src.to_string();
             let r = std::panic::catch_unwind(move || {
